@@ -485,6 +485,16 @@ def mutators(rng):
 
     add("rewind+fix_normals", rewind_fix)
 
+    def rewind_process(m, r):
+        f = np.array(m.faces)
+        k = r.random(len(f)) < 0.4
+        f[k] = f[k][:, ::-1]
+        m.faces = f
+        _ = m.face_normals, m.vertex_normals  # normals of the re-wound faces are cached ...
+        m.process(validate=True)  # ... while fix_normals re-winds under the cache lock
+
+    add("rewind+normals+process:validate", rewind_process)
+
     def hole_fill(m, r):
         keep = np.ones(len(m.faces), dtype=bool)
         keep[int(r.integers(len(m.faces)))] = False
@@ -606,11 +616,20 @@ class Monitor:
         # legitimately leaves behind (a few ulp).  A value on which the two fresh meshes
         # disagree is ill-conditioned for this input (ties broken by normals, arccos near 0,
         # marginal ray hits) and says nothing about staleness: it is skipped and counted.
-        twins = [t for t in (perturbed_twin(f, self.run, "noise"), perturbed_twin(f, self.run, "transport")) if t is not None]
-        f2 = twins[0] if twins else None
-        extra_f2 = _extra_reads(f2, sc) if f2 is not None else {}
-        f3 = twins[1] if len(twins) > 1 else None
-        extra_f3 = _extra_reads(f3, sc) if f3 is not None else {}
+        twin_box = []
+
+        def twins():
+            # built on first use: most histories never need them
+            if not twin_box:
+                built = []
+                for style in ("noise", "transport"):
+                    t = perturbed_twin(f, self.run, style)
+                    if t is not None:
+                        built.append((t, _extra_reads(t, sc)))
+                twin_box.append(built)
+                run.count("calibration_twins_built", len(built))
+            return twin_box[0]
+
         embree_ok = 0.5 <= sc["s"] <= 200.0
         bad = 0
         hits0 = self.probe.hits
@@ -621,17 +640,6 @@ class Monitor:
                 run.skip("tolerance-bound query outside the well-scaled regime: %s" % n)
                 continue
             vf = read(f, n, extra_f)
-            if f2 is not None and n not in extra_f2 and n in extra_f:
-                continue
-            if f2 is not None:
-                vf2 = read(f2, n, extra_f2)
-                bad_twin = differ(vf2, vf, n, sc)
-                if not bad_twin and f3 is not None and (n not in extra_f or n in extra_f3):
-                    bad_twin = differ(read(f3, n, extra_f3), vf, n, sc)
-                if bad_twin:
-                    run.skip("ill-conditioned under admissible normal rounding: %s" % n)
-                    run.count("ill_conditioned_reads")
-                    continue
             if isinstance(vf, Raised):
                 run.skip("fresh value raises: %s" % n)
                 continue
@@ -645,6 +653,19 @@ class Monitor:
             if self.probe.hits > h0:
                 run.count("value_comparisons_served_from_cache")
             if d:
+                # consult the calibration twins only now (they cost as much as the fresh mesh):
+                # is this value stable under admissible rounding of the stored normals?
+                unstable = False
+                for ft, ex in twins():
+                    if n in extra_f and n not in ex:
+                        continue
+                    if differ(read(ft, n, ex), vf, n, sc):
+                        unstable = True
+                        break
+                if unstable:
+                    run.skip("ill-conditioned under admissible normal rounding: %s" % n)
+                    run.count("ill_conditioned_reads")
+                    continue
                 bad += 1
                 run.violation(
                     "mut=%s stale=%s" % (mut_name, n),
